@@ -608,6 +608,15 @@ def agent_rule(index, rep, rule, pipe: Pipeline) -> None:
             ok = py == -Aff.sym('ymin') and px == -Aff.sym('xmin')
         except NonAffine:
             ok = False
+    elif p is not None:
+        # any other spelling (`-Position(area.ymin, area.xmin)`, a static helper of Agent):
+        # its denotation in the pose algebra
+        try:
+            gi_ = GeoInterp(Geometry(index))
+            pv = gi_.eval(p, {'area': A('a')}, fn.module)
+            ok = pv == ('P', (-Aff.sym('aymin'), -Aff.sym('axmin')))
+        except (AnalysisError, Exception):      # noqa: BLE001
+            ok = False
     rep.check(ok, rule, OBS, 'from_visibility', fn.node.lineno, src(p) if p is not None else '',
               "the agent's view position is not (-area.ymin, -area.xmin), the view cell of the "
               "agent's own world cell", 'agent position')
